@@ -881,7 +881,7 @@ impl ActivePeers {
     }
 }
 
-#[cfg(bmwill_anemo_verif)]
+#[cfg(all(bmwill_anemo_verif, not(bmwill_anemo_verif_nodirect)))]
 pub(crate) fn verif_active_peers_add(
     active_peers: &ActivePeers,
     own_peer_id: &PeerId,
@@ -890,7 +890,7 @@ pub(crate) fn verif_active_peers_add(
     active_peers.add(own_peer_id, new_connection)
 }
 
-#[cfg(bmwill_anemo_verif)]
+#[cfg(all(bmwill_anemo_verif, not(bmwill_anemo_verif_nodirect)))]
 pub(crate) fn verif_tie_break(
     own_peer_id: &PeerId,
     remote_peer_id: &PeerId,
